@@ -18,7 +18,7 @@ RULE = ("Hypothesis draws training sets (m up to 40, every slice covered as the 
         "Non-trivial = single-sample slice, duplicates or weights present, and some rank >= 2; distinct by SHA-1 of the case.")
 TOLERANCES = ("J_{t+1} <= J_t (1+1e-9) + 1e-12 (J_0+1); ridge gradient of the last updated core <= 1e-8 * scale; restart and permutation: relative "
               "difference <= 1e-6 * max(1, (1e-3/lamb)^2)")
-ASSUMPTIONS = ["lamb > 0 (unique ridge minimiser per core)", "weights positive", "d >= 2 (adaptive d >= 3)",
+ASSUMPTIONS = ["lamb > 0 (unique ridge minimiser per core)", "weights non-negative (exact zeros included)", "d >= 2 (adaptive d >= 3)",
                "als_func with thr_pow=0 (default thr_pow may legitimately shrink a mode, then only shape<=initial is claimed)"]
 
 
@@ -33,6 +33,7 @@ def als_cases(draw, tier):
             "Y0": draw(gen.tt_specs(shape=n, r_max=3, families=("gauss", "float"), rank_families=("rank1", "uniform", "uniform", "ragged", "ragged"))),
             "target": draw(st.sampled_from(["tt", "random", "const"])),
             "lamb10": draw(st.sampled_from([-6, -4, -3, -2, -1, 0, 1])), "weights": draw(st.booleans()),
+            "wkind": draw(st.sampled_from(["positive", "positive", "some_zero", "slice_zero"])), "wcore": draw(st.sampled_from([1, 1, 0, d - 1])),
             "layout": draw(st.sampled_from(["plain", "dups", "single", "single", "grid"])),
             "p": draw(st.sampled_from(["first", "mid", "last"])), "k0": draw(st.integers(0, d - 1)),
             "nswp": draw(st.integers(1, 4)), "a": draw(st.integers(1, 3)), "pseed": draw(gen.seeds)}
@@ -77,6 +78,14 @@ def make_data(case):
     else:
         y = np.full(len(I), 1.5)
     w = rng.uniform(0.2, 3.0, size=len(I)) if case["weights"] else None
+    if w is not None:
+        # weights are non-negative: exact zeros switch samples off; a slice whose samples ALL have weight 0 has the ridge minimiser 0
+        wk = case.get("wkind", "positive")
+        if wk == "some_zero":
+            w[rng.uniform(size=len(w)) < 0.3] = 0.0
+        elif wk == "slice_zero":
+            kc = min(case.get("wcore", 1), d - 1)
+            w[I[:, kc] == int(rng.integers(0, n[kc]))] = 0.0
     return I, y, w, single
 
 
@@ -124,7 +133,7 @@ def prop_als(case, ctx):
     lamb = 10.0 ** case["lamb10"]
     Y0 = gen.build_tt(case["Y0"])
     nswp = case["nswp"]
-    ctx.label("layout:" + case["layout"], "weights" if w is not None else "noweights", f"lamb=1e{case['lamb10']}", f"d={d}", "target:" + case["target"])
+    ctx.label("layout:" + case["layout"], ("weights:" + case.get("wkind", "positive")) if w is not None else "noweights", f"lamb=1e{case['lamb10']}", f"d={d}", "target:" + case["target"])
     if single:
         ctx.label(f"single_at_{case['p']}", f"single_core_{min(single[0], 2)}")
     ctx.nontrivial((single is not None or case["layout"] == "dups" or w is not None) and max(case["Y0"]["r"]) >= 2)
